@@ -291,6 +291,28 @@ fn gen_schema(r: &mut Rng, lazy: bool) -> Schema {
                     s.stanzas.push(Stz::ReadDirect { query: (*r.pick(READ_DIRECT)).into(), name: name.clone() });
                 }
             }
+            // a second inherited name, defined on the root and on nearer containers, read from
+            // the very nodes that read the first one
+            if r.chance(1, 3) {
+                s.inherits.push("oth".into());
+                s.stanzas.push(Stz::DefTag { query: "(module) @x".into(), name: "oth".into(), mutable: false });
+                for _ in 0..r.range(1, 2) {
+                    let q = *r.pick(&containers[1..]);
+                    if !s.stanzas.iter().any(|z| matches!(z, Stz::DefTag { query, name, .. } if query == q && name == "oth")) {
+                        s.stanzas.push(Stz::DefTag { query: q.into(), name: "oth".into(), mutable: false });
+                    }
+                }
+                let again: Vec<Stz> = s
+                    .stanzas
+                    .iter()
+                    .filter_map(|z| match z {
+                        Stz::ReadDirect { query, name: n } if *n == name => Some(Stz::ReadDirect { query: query.clone(), name: "oth".into() }),
+                        Stz::ReadList { query, name: n } if *n == name => Some(Stz::ReadList { query: query.clone(), name: "oth".into() }),
+                        _ => None,
+                    })
+                    .collect();
+                s.stanzas.extend(again);
+            }
         }
         2 => {
             // all nodes of several kinds tagged via one wildcard-free definer each; readers on the same kinds
